@@ -90,6 +90,24 @@ static void strided_array()
     }
 }
 
+// storage whose INDEX type is narrow: the reported size must be the constructed one even when it fills the index range
+template <typename I>
+static void narrow_index(std::size_t len)
+{
+    using B = cb::strided<cv::vector_d<I, 1>, cb::array<cv::float1, I>>;
+    using F = covfie::field<B>;
+    std::string nm = std::string("strided<") + vh::tn<I>() + "1, array<float1, " + vh::tn<I>() + ">> length " + std::to_string(len);
+    vh::set_case("%s", nm.c_str());
+    F f(covfie::make_parameter_pack(covfie::utility::nd_size<1>{len}, covfie::utility::nd_size<1>{len}));
+    vh::ev(2);
+    vh::nontrivial(vh::fnv(nm));
+    std::size_t e = f.backend().get_configuration()[0], a = f.backend().get_backend().get_configuration()[0];
+    if (e != len || a != len) vh::viol("readback:narrow-index-array", nm + ": strided reports " + std::to_string(e) + ", array reports " + std::to_string(a));
+    // and a copy built from the reported configuration holds that many cells
+    F g(covfie::make_parameter_pack(f.backend().get_configuration(), typename cb::array<cv::float1, I>::owning_data_t(f.backend().get_backend())));
+    if (g.backend().get_backend().get_configuration()[0] != len) vh::viol("rebuild:narrow-index-array", nm + ": rebuilt storage reports " + std::to_string(g.backend().get_backend().get_configuration()[0]));
+}
+
 static void mixed10()
 {
     using S = cb::strided<cv::size2, cb::array<cv::float2>>;                                   // depth 2
@@ -142,6 +160,11 @@ int main(int argc, char ** argv)
     affine_tower<8>(std::make_index_sequence<8>{});
     affine_tower<9>(std::make_index_sequence<9>{});
     strided_array();
+    narrow_index<unsigned char>(200);
+    narrow_index<unsigned char>(256);
+    narrow_index<unsigned short>(300);
+    narrow_index<unsigned short>(65536);
+    narrow_index<unsigned>(70000);
     mixed10();
     return vh::finish();
 }
